@@ -36,7 +36,9 @@ Vocabulary (defined in `OH/Proofs/Iter.lean`):
   schedule of a day outside 1900…9999 looks like (that it is "closed" is C08's day-level clause).
 * `Runs env a b l`: `l` is the list of maximal constant runs of `pointKind env` tiling `[a, b)`.
 * `IsNextChange env t r`: `r` is the exact next change after `t` (semantic definition, no iterator).
-* `BoundOK env`: the bound, if any, is `≥ −1 day` and `bound + 1 day ≤ TimeDelta::MAX`.
+* `boundLimit b` (model): the limit of the loop test of `consume_until_next_kind`, `max(b, 0) + 1 day`
+  saturating at `TimeDelta::MAX` (`deltaMax`).  No hypothesis on the bound is needed any more for totality and
+  `state`; the C16 clauses hold for EVERY bound (see the C16 section for the one side condition).
 
 Instants are `Int` nanoseconds (`Instant`), so every statement "for all t inside the interval" really
 ranges over all sub-minute instants.  All theorems are about the abstract functions `iterRangeG`,
@@ -45,12 +47,7 @@ these at `envOf ctx e` by `rfl` (see the last section).
 
 NOT PROVED here:
 * `EnvOK (envOf ctx e)` — Layer B (tilings from `Schedule.iter`, soundness of `next_change_hint`), other files.
-* The ctx-level reading of C16, "the same query with `{ctx with bound := none}`": it needs
-  `envOf {ctx with bound := none} e = unbounded (envOf ctx e)`, i.e. the missing lemmas
-  `daySchedule {ctx with bound := b} e = daySchedule ctx e` and
-  `nextChangeHint {ctx with bound := b} e = nextChangeHint ctx e` (true by inspection: `OH/Model/Eval.lean`
-  never reads `.bound`; a structural walk over the selector functions).  The C16 theorems below compare
-  `env` with `unbounded env` (same day level, no bound), which is the same thing once these lemmas exist.
+  (The ctx-level reading of C16 is in `OH/Props/C16.lean`: `envOf {ctx with bound := none} e = unbounded (envOf ctx e)`.)
 * Nothing is claimed about the items of a BOUNDED stream after the first one (they may overlap; C16 is about
   `state`/`next_change` only) beyond finiteness, absence of panics and clipping to the window.
 -/
@@ -204,7 +201,7 @@ theorem first_interval_exact {env : Env} (ok : EnvOK env) (hbn : env.bound = non
       ∧ min instEnd frm < c ∧ c ≤ min instEnd to
       ∧ (∀ t, min instEnd frm ≤ t → t < c → pointKind env t = pointKind env (min instEnd frm))
       ∧ (c = min instEnd to ∨ pointKind env c ≠ pointKind env (min instEnd frm)) := by
-  obtain ⟨s, c0, tr, hf, hr, h1, h2, h3, h4, h5⟩ := first_spec ok (boundOK_of_none hbn) hlt (Int.min_le_left _ _)
+  obtain ⟨s, c0, tr, hf, hr, h1, h2, h3, h4, h5⟩ := first_spec ok hlt (Int.min_le_left _ _)
   have hk := pointKind_of_range hr
   have hcm : pointComments env (min instEnd frm) = tr.comments := by simp [pointComments, hr]
   simp only [reported, hbn] at hf
@@ -255,14 +252,21 @@ section C03
 variable {env : Env} (ok : EnvOK env)
 include ok
 
-/-- `state(t)` is the state the schedule of `t`'s day gives to `t` (for `t` before END such that
-`t + 1 minute` is representable; the bound, if any, does not matter) -/
-theorem state_eq_pointKind (hb : BoundOK env) {t : Instant} (hrep : t + nsPerMin ≤ instMax) (hlt : t < instEnd) :
-    stateG env t = .ok (pointKind env t) := (stateG_spec ok hb hrep).1 hlt
+/-- `state(t)` is the state the schedule of `t`'s day gives to `t`, for every `t` before END — whatever the
+bound, and with no representability side condition (`t + 1 minute` cannot overflow below END:
+`state_window_representable`) -/
+theorem state_eq_pointKind {t : Instant} (hlt : t < instEnd) :
+    stateG env t = .ok (pointKind env t) := (stateG_spec ok t).1 hlt
 
-/-- from 10000-01-01 on, `state` is closed -/
-theorem state_after_end (hb : BoundOK env) {t : Instant} (hrep : t + nsPerMin ≤ instMax) (hge : instEnd ≤ t) :
-    stateG env t = .ok .closed := (stateG_spec ok hb hrep).2 hge
+/-- from 10000-01-01 on, `state` is closed (early return; holds for any day level) -/
+theorem state_after_end {t : Instant} (hge : instEnd ≤ t) :
+    stateG env t = .ok .closed := (stateG_spec ok t).2 hge
+
+/-- `state` never panics -/
+theorem state_total (t : Instant) : ∃ k, stateG env t = .ok k := by
+  by_cases hlt : t < instEnd
+  · exact ⟨_, (stateG_spec ok t).1 hlt⟩
+  · exact ⟨_, (stateG_spec ok t).2 (by omega)⟩
 
 /-- `next_change` never panics and is the exact next change -/
 theorem nextChange_exact (hbn : env.bound = none) {t : Instant} (hlt : t < instEnd) :
@@ -313,14 +317,13 @@ theorem nextChange_same_interval_none (hbn : env.bound = none) {t u : Instant}
 /-- `state` and `next_change` are mutually consistent: `state` is constant up to the next change and
 different there -/
 theorem state_nextChange_consistent (hbn : env.bound = none) {t c : Instant}
-    (h : nextChangeG env t = .ok (some c)) (hrep : c + nsPerMin ≤ instMax) :
+    (h : nextChangeG env t = .ok (some c)) :
     (∀ u, t ≤ u → u < c → stateG env u = stateG env t) ∧ stateG env c ≠ stateG env t := by
   obtain ⟨h1, h2, h3, h4⟩ := nextChange_some ok hbn h
-  have hb := boundOK_of_none hbn
-  have ht := state_eq_pointKind ok hb (t := t) (by omega) (by omega)
+  have ht := state_eq_pointKind ok (t := t) (by omega)
   refine ⟨fun u hu1 hu2 => ?_, ?_⟩
-  · rw [state_eq_pointKind ok hb (t := u) (by omega) (by omega), ht, h3 u hu1 hu2]
-  · rw [state_eq_pointKind ok hb hrep h2, ht]
+  · rw [state_eq_pointKind ok (t := u) (by omega), ht, h3 u hu1 hu2]
+  · rw [state_eq_pointKind ok h2, ht]
     intro e; exact h4 (Except.ok.inj e)
 
 end C03
@@ -335,27 +338,35 @@ theorem pointKind_unbounded (env : Env) (t : Instant) : pointKind (unbounded env
 theorem envOK_unbounded {env : Env} (ok : EnvOK env) : EnvOK (unbounded env) :=
   ⟨ok.sched_ok, ok.tiles, ok.hint_ok, ok.hint_gt, ok.hint_sound⟩
 
+/-- with a bound — ANY bound — `state` is unchanged, at every instant (it does not even look at it) -/
+theorem bounded_state_unchanged {env : Env} (ok : EnvOK env) (t : Instant) :
+    stateG env t = stateG (unbounded env) t := by
+  by_cases hlt : t < instEnd
+  · rw [(stateG_spec ok t).1 hlt, (stateG_spec (envOK_unbounded ok) t).1 hlt]; rfl
+  · rw [(stateG_spec ok t).2 (by omega), (stateG_spec (envOK_unbounded ok) t).2 (by omega)]
+
+/-- with ANY bound (none, negative, zero, `TimeDelta::MAX`, …) the stream is finite and panic-free
+(its items may overlap: C02 is about the unbounded stream only) -/
+theorem bounded_iter_total {env : Env} (ok : EnvOK env) (frm to : Instant) :
+    ∃ out, iterRangeG env frm to = .ok out := iterRangeG_total ok frm to
+
 section C16
 variable {env : Env} (ok : EnvOK env) {B : Int} (hB : env.bound = some B)
-  (hlo : -nsPerDay ≤ B) (hhi : B + nsPerDay ≤ deltaMax)
-include ok hB hlo hhi
+include ok hB
 
-omit ok in
-theorem boundOK_of : BoundOK env := by
-  intro b hb; rw [hB] at hb; cases hb; exact ⟨hlo, hhi⟩
+/-- With a bound `B` — ANY integer `B`, negative and huge ones included — `next_change` returns (no panic)
+the exact answer `x` or `none`; exact when `x = some c` with `c − t ≤ B − 24 h`; `none` when `c − t > B`;
+`none` when `x = none`.
 
-/-- with a bound, `state` is unchanged -/
-theorem bounded_state_unchanged {t : Instant} (hrep : t + nsPerMin ≤ instMax) :
-    stateG env t = stateG (unbounded env) t := by
-  have hb := boundOK_of hB hlo hhi
-  have hb0 : BoundOK (unbounded env) := boundOK_of_none rfl
-  by_cases hlt : t < instEnd
-  · rw [(stateG_spec ok hb hrep).1 hlt, (stateG_spec (envOK_unbounded ok) hb0 hrep).1 hlt]; rfl
-  · rw [(stateG_spec ok hb hrep).2 (by omega), (stateG_spec (envOK_unbounded ok) hb0 hrep).2 (by omega)]
-
-/-- with a bound, `next_change` returns (no panic) the exact answer `x` or `none`;
-exact when `x = some c` with `c − t ≤ B − 24 h`; `none` when `c − t > B`; `none` when `x = none` -/
-theorem bounded_nextChange {t : Instant} {x : Option Instant} (hx : nextChangeG (unbounded env) t = .ok x) :
+Side condition `hfit`: `B + 1 day ≤ TimeDelta::MAX` OR `t` is a representable instant (`instMin ≤ t`).  The
+second alternative holds for every `NaiveDateTime`, so for real inputs there is no condition at all; it is
+only there because the model's instants are unbounded integers: when `B + 1 day` saturates at
+`TimeDelta::MAX` the loop test (saturated limit) and the test of `next` (raw `B`) can only disagree on
+spans that no two representable instants before END have.  For `B < 0` see also
+`negative_bound_nextChange` (always `none`): the "exact within `B − 24 h`" clause is then vacuous, as it is
+for every `B < 24 h`. -/
+theorem bounded_nextChange {t : Instant} (hfit : B + nsPerDay ≤ deltaMax ∨ instMin ≤ t)
+    {x : Option Instant} (hx : nextChangeG (unbounded env) t = .ok x) :
     ∃ y, nextChangeG env t = .ok y
       ∧ (y = x ∨ y = none)
       ∧ (∀ c, x = some c → c - t ≤ B - nsPerDay → y = x)
@@ -364,35 +375,36 @@ theorem bounded_nextChange {t : Instant} {x : Option Instant} (hx : nextChangeG 
   by_cases hlt : t < instEnd
   · obtain ⟨x', hx', hs⟩ := nextChangeG_exact (envOK_unbounded ok) rfl hlt
     rw [hx'] at hx; cases hx
-    exact nextChangeG_bounded ok (boundOK_of hB hlo hhi) hB hlt hs
+    exact nextChangeG_bounded ok hB hfit hlt hs
   · rw [nextChangeG_after_end (envOK_unbounded ok) (by omega)] at hx; cases hx
     exact ⟨none, nextChangeG_after_end ok (by omega), Or.inl rfl, fun _ h => (nomatch h),
       fun _ h => (nomatch h), fun _ => rfl⟩
 
+/-- a NEGATIVE bound: `end − start > B` holds for every item, so `next_change` is `none` at every instant
+(consistent with all four clauses above: "exact or none", "none when more than `B` after", the exactness
+clause being vacuous) -/
+theorem negative_bound_nextChange (hneg : B < 0) (t : Instant) : nextChangeG env t = .ok none :=
+  nextChangeG_negative_bound ok hB hneg t
+
+/-- …and the first item of every non-empty window is reported as `from'..DATE_END`, clipped to the window:
+right state and comments, end = window end -/
+theorem negative_bound_first_interval (hneg : B < 0) (frm to : Instant)
+    (hlt : min instEnd frm < min instEnd to) :
+    firstIntervalG env frm to = .ok (some ⟨min instEnd frm, min instEnd to,
+      pointKind env (min instEnd frm), pointComments env (min instEnd frm)⟩) := by
+  rw [firstIntervalG_clip]
+  exact firstIntervalG_negative_bound ok hB hneg hlt (Int.min_le_left _ _)
+
 end C16
 
-/-- with a bound inside `BoundOK` (any `0 ≤ B ≤ TimeDelta::MAX − 1 day`, even `−1 day ≤ B`) the stream is
-still finite and panic-free (its items may overlap: C02 is about the unbounded stream only) -/
-theorem bounded_iter_total {env : Env} (ok : EnvOK env) (hb : BoundOK env) (frm to : Instant) :
-    ∃ out, iterRangeG env frm to = .ok out := iterRangeG_total ok hb frm to
-
-/-- What happens outside `−1 day ≤ B ≤ TimeDelta::MAX − 1 day` (the API accepts any `TimeDelta`):
-
-* `B < −1 day`: `curr_date − start_date > B + 1 day` holds at once, `consume_until_next_kind` returns
-  without advancing, `next` yields `start..DATE_END` for ever: `iter_range` over any non-empty window never
-  ends (the model's progress check reports it). -/
-theorem bound_below_minus_one_day_diverges {env : Env} (ok : EnvOK env) {B : Int} (hB : env.bound = some B)
-    (h1 : B + nsPerDay < 0) (h2 : -deltaMax ≤ B + nsPerDay) {frm to : Instant}
-    (h : min instEnd frm < min instEnd to) :
-    iterRangeG env frm to = .error "model: iterator made no progress (unbounded iteration)" :=
-  iterRangeG_stuck ok hB h1 h2 h
-
-/-- * `B > TimeDelta::MAX − 1 day`: `max_interval_size + TimeDelta::days(1)` overflows; every `state`,
-  `next_change` and `iter_range` over a non-empty window before END panics. -/
-theorem bound_overflow_panics {env : Env} (ok : EnvOK env) {B : Int} (hB : env.bound = some B)
-    (h1 : B + nsPerDay > deltaMax) {frm to : Instant} (h : min instEnd frm < min instEnd to) :
-    firstIntervalG env frm to = .error "opening_hours.rs:consume TimeDelta + TimeDelta overflowed" :=
-  firstIntervalG_bound_overflow ok hB h1 h
+/-! History (kept for the record; both repaired in the repository by "fix: an interval-size bound below -1 day
+or close to TimeDelta::MAX must not hang or panic", and in the model by `boundLimit`): with the original
+loop test `curr_date − start_date > max_interval_size + TimeDelta::days(1)`
+* `B < −1 day` made `consume_until_next_kind` return before consuming anything: `iter_range` yielded the same
+  item for ever (former theorem `bound_below_minus_one_day_diverges`; real code: 1 000 000 identical items);
+* `B > TimeDelta::MAX − 1 day` made the addition panic in every `state`/`next_change`/`iter_range` before
+  END (former theorem `bound_overflow_panics`).
+Both are now covered by the positive theorems `bounded_iter_total`, `state_total`, `bounded_nextChange`. -/
 
 /-! ## The real entry points are the abstract ones at `envOf ctx e` -/
 
@@ -422,23 +434,31 @@ example (frm to : Instant) : ∃ out, iterRangeG (weekEnv none) frm to = .ok out
 running from Friday 17:00 over the skipped weekend to Monday 09:00; its window is non-empty: -/
 example : min instEnd (3 * nsPerDay + 600 * nsPerMin + 7) < min instEnd (8 * nsPerDay + 1) := by decide
 
-/-- the C03 hypotheses (`t` before END, `t + 1 min` representable) -/
-example : (4 * nsPerDay + 1100 * nsPerMin + 7 : Int) + nsPerMin ≤ instMax ∧ 4 * nsPerDay + 1100 * nsPerMin + 7 < instEnd := by
-  decide
+/-- the C03 hypothesis (`t` before END) -/
+example : (4 * nsPerDay + 1100 * nsPerMin + 7 : Int) < instEnd := by decide
 
 /-- the C16 hypotheses: a bound of two days (the exact next change after Friday 18:20 is Monday 09:00,
 more than two days later: the bounded answer is `none`; with four days it is exact) -/
 example : (weekEnv (some (2 * nsPerDay))).bound = some (2 * nsPerDay)
-    ∧ -nsPerDay ≤ 2 * nsPerDay ∧ 2 * nsPerDay + nsPerDay ≤ deltaMax := by decide
+    ∧ (2 * nsPerDay + nsPerDay ≤ deltaMax ∨ instMin ≤ 4 * nsPerDay + 1100 * nsPerMin + 7) :=
+  ⟨rfl, Or.inl (by decide)⟩
 
 example {t : Instant} {x : Option Instant} (hx : nextChangeG (unbounded (weekEnv (some (2 * nsPerDay)))) t = .ok x) :
     ∃ y, nextChangeG (weekEnv (some (2 * nsPerDay))) t = .ok y ∧ (y = x ∨ y = none) :=
-  let ⟨y, h1, h2, _⟩ := bounded_nextChange (envOK_week _) rfl (by decide) (by decide) hx
+  let ⟨y, h1, h2, _⟩ := bounded_nextChange (envOK_week _) rfl (Or.inl (by decide)) hx
   ⟨y, h1, h2⟩
 
-/-- the divergence theorem applies: a bound of −2 days -/
-example : iterRangeG (weekEnv (some (-2 * nsPerDay))) 0 nsPerDay
-    = .error "model: iterator made no progress (unbounded iteration)" :=
-  bound_below_minus_one_day_diverges (envOK_week _) rfl (by decide) (by decide) (by decide)
+/-- a bound of `TimeDelta::MAX` (`B + 1 day` saturates) at a representable instant -/
+example {x : Option Instant} (hx : nextChangeG (unbounded (weekEnv (some deltaMax))) 7 = .ok x) :
+    ∃ y, nextChangeG (weekEnv (some deltaMax)) 7 = .ok y ∧ (y = x ∨ y = none) :=
+  let ⟨y, h1, h2, _⟩ := bounded_nextChange (envOK_week _) rfl (Or.inr (by decide)) hx
+  ⟨y, h1, h2⟩
+
+/-- a bound of −2 days (the former endless iteration): the stream is finite, `next_change` is `none` -/
+example : ∃ out, iterRangeG (weekEnv (some (-2 * nsPerDay))) 0 nsPerDay = .ok out :=
+  bounded_iter_total (envOK_week _) 0 nsPerDay
+
+example (t : Instant) : nextChangeG (weekEnv (some (-2 * nsPerDay))) t = .ok none :=
+  negative_bound_nextChange (envOK_week _) rfl (by decide) t
 
 end OH.Props.C02A
